@@ -171,6 +171,9 @@ type revHandler struct{ l *invLog }
 
 func (r *revHandler) Const() int        { r.l.add("Const"); return 42 }
 func (r *revHandler) EchoInt(a int) int { r.l.add("EchoInt", a); return a }
+func (r *revHandler) Add(a, b int) int  { r.l.add("Add", a, b); return a + b }
+func (r *revHandler) Noop()             { r.l.add("Noop") }
+func (r *revHandler) Panic()            { r.l.add("Panic"); panic("kaboom in a client-side handler") }
 
 func wsWorkerClient(frames []wsFrame, obs *wsBatchObs, progress func(int), withHandler bool) {
 	// fake server: accepts one connection, answers Sub with channel id 5, never answers Block, answers Ping
@@ -410,6 +413,9 @@ func wsFramesFamily(seed uint64, tier string, args []string) {
 						continue // plain calls are thinned in the quick tier; built-ins are always exhaustive
 					}
 					var mem []string
+					if role == "client" && strings.HasPrefix(m, `"H.`) && (pi+ii)%2 == 0 {
+						m = `"R.` + m[3:] // the client's own (reverse) handler table is registered under R
+					}
 					if m != `` {
 						mem = append(mem, `"method":`+m)
 					}
